@@ -135,7 +135,10 @@ def sensitivity(argv):
                                      "assert ak.__file__.startswith(os.getcwd()), ak.__file__; import pytest; "
                                      "sys.exit(pytest.main(['-q', '-p', 'no:cacheprovider', '-x', 'tests']))"],
                                     cwd=tmp, capture_output=True, text=True, env=envt, timeout=900)
-                tests_note = "tests:pass " if rt.returncode == 0 else "tests:FAIL(not a relevant mutant) "
+                if m.get("suite_catches"):
+                    tests_note = "tests:fail(as declared) " if rt.returncode != 0 else "tests:PASS(declaration stale) "
+                else:
+                    tests_note = "tests:pass " if rt.returncode == 0 else "tests:FAIL(not a relevant mutant) "
             env = dict(os.environ)
             env["AK_REPO"] = tmp
             r = subprocess.run([os.path.join(core.VERIF_DIR, "vcheck"), m["prop"], "--budget-s", budget],
